@@ -3,7 +3,40 @@ Each still lets the repo's own test suite pass (checked when it was added)."""
 
 OD = "mappyfile/ordereddict.py"
 
+UT = "mappyfile/utils.py"
+PA = "mappyfile/parser.py"
+VA = "mappyfile/validator.py"
+PP = "mappyfile/pprint.py"
+DU = "mappyfile/dictutils.py"
+CL = "mappyfile/cli.py"
+
+_PARSER_CACHE = (
+    "def loads(\n    s: str,",
+    "_PARSERS: dict = {}\n\n\ndef _parser(expand_includes, include_comments):\n    key = (expand_includes, include_comments)\n"
+    "    if key not in _PARSERS:\n        _PARSERS[key] = Parser(expand_includes=expand_includes, include_comments=include_comments)\n"
+    "    return _PARSERS[key]\n\n\ndef loads(\n    s: str,",
+)
+
 MUTANTS = {
+    "C12": [
+        ("module_level_parser_cache_in_loads", [
+            (UT, _PARSER_CACHE[0], _PARSER_CACHE[1]),
+            (UT, "    p = Parser(\n        expand_includes=expand_includes, include_comments=include_comments, **kwargs\n    )\n    ast = p.parse(s)",
+                 "    p = _parser(expand_includes, include_comments)\n    ast = p.parse(s)"),
+        ]),
+        ("comment_buffer_not_cleared", [(PA, "            self._comments[:] = []  # clear any comments from a previous parse\n", "")]),
+        ("shared_module_level_validator", [
+            (UT, "    v = Validator()\n    return v.validate(d, version=version)", "    return _VALIDATOR.validate(d, version=version)"),
+            (UT, "def deprecated(func):", "_VALIDATOR = Validator()\n\n\ndef deprecated(func):"),
+        ]),
+        ("schema_cache_key_without_version", [(VA, "cache_schema_name = schema_name + str(version)", "cache_schema_name = schema_name")]),
+        ("convert_lowercase_in_place", [(VA, "        if isinstance(x, dict):\n            return OrderedDict(\n                (k.lower(), self.convert_lowercase(v)) for k, v in x.items()\n            )",
+                                         "        if isinstance(x, dict):\n            for k in list(x.keys()):\n                x[k] = self.convert_lowercase(x[k])\n            return x")]),
+        ("separate_complex_always", [(PP, "        if not self.separate_complex_types:\n            return\n", "")]),
+        ("transformer_keeps_previous_position_flag", [("mappyfile/transformer.py", "        self.mapfile_transformer = self.transformer_class(\n            include_position=self.include_position,",
+                                                       "        self.mapfile_transformer = self.transformer_class(\n            include_position=self.include_position or getattr(MapfileToDict, '_seen_pos', False),"),
+                                                      ("mappyfile/transformer.py", "    def transform(self, tree):\n        tree = Canonize().transform(tree)\n", "    def transform(self, tree):\n        tree = Canonize().transform(tree)\n        MapfileToDict._seen_pos = getattr(MapfileToDict, '_seen_pos', False) or self.include_position\n")]),
+    ],
     "C17": [
         ("pop_without_key_folding", [(OD, "return super().pop(self.__class__._k(key), *args, **kwargs)", "return super().pop(key, *args, **kwargs)")]),
         # (setdefault without folding is an equivalent mutant: C OrderedDict.setdefault goes through the overridden __contains__/__getitem__/__setitem__)
